@@ -10,6 +10,7 @@ package tacquito
 import (
 	"fmt"
 	"sync"
+	"sync/atomic"
 
 	"github.com/prometheus/client_golang/prometheus"
 )
@@ -117,19 +118,25 @@ func (s *sessions) close() {
 // a counter that can be used in Serve()
 type waitGroup struct {
 	sync.WaitGroup
-	active uint
+	// active is touched by the accept loop and by every connection goroutine, only through sync/atomic
+	active int64
 }
 
 // Add adds to WaitGroup and increments the count
 func (w *waitGroup) Add(delta int) {
 	waitgroupActive.Inc()
 	w.WaitGroup.Add(delta)
-	w.active++
+	atomic.AddInt64(&w.active, 1)
 }
 
 // Done decrements WaitGroup and the counter
 func (w *waitGroup) Done() {
 	waitgroupActive.Dec()
 	w.WaitGroup.Done()
-	w.active--
+	atomic.AddInt64(&w.active, -1)
+}
+
+// Active returns the number of connection goroutines that have not finished yet
+func (w *waitGroup) Active() int64 {
+	return atomic.LoadInt64(&w.active)
 }
